@@ -145,6 +145,12 @@ def gen_firewall():
                 hooks = sorted(x.name for x in node.body if isinstance(x, (ast.FunctionDef, ast.AsyncFunctionDef)) and x.name in hook_names)
                 if hooks:
                     hook_defs.append((pl, name, hooks))
+    # log.deadlyExceptions: the classes the log formatter re-raises instead of formatting (every except clause that logs
+    # what it caught lets them through again)
+    dn = find_assign(log, 'deadlyExceptions')
+    if not (isinstance(dn, ast.List) and all(isinstance(x, ast.Name) for x in dn.elts)):
+        raise ExtractionError('log.deadlyExceptions: expected a list of class names')
+    deadly = [x.id for x in dn.elts]
     # SocketDriver.setTimeout: the connected socket must keep a finite timeout (settimeout(None) = blocking mode:
     # a recv() with nothing to read would never return and drivers.run() would hang for every network)
     st_fn = find_func(sock, 'setTimeout', cls='SocketDriver')
@@ -184,6 +190,8 @@ def gen_firewall():
             'def preformattedLogCalls : List String := %s\n\n'
             '/-- some settimeout(None)/setblocking(True) in the socket driver; number of recv() calls in _read -/\n'
             'def socketMayBlock : Bool := %s\ndef readRecvCalls : Nat := %d\n\n'
+            '/-- log.deadlyExceptions: re-raised by the log formatter -/\n'
+            'def deadlyExceptions : List String := %s\n\n'
             '/-- callbacks.Commands.__firewalled__ -/\n'
             'def commandsFirewalled : List (String × Bool) :=\n  %s\n\n'
             '/-- every plugin class of plugins/*/plugin.py that overrides a hook named in a __firewalled__ map: (plugin, class, hooks) -/\n'
@@ -196,6 +204,7 @@ def gen_firewall():
         'true' if unprotected_dispatch else 'false', lstring(errors), llist(lstring(x) for x in read_catches),
         llist(lstring(x) for x in sorted(set(preformatted))),
         'true' if blocking else 'false', len(recvs),
+        llist(lstring(x) for x in deadly),
         _lean_pairs(commands_fw),
         llist('(%s, %s, %s)' % (lstring(a), lstring(b), llist(lstring(h) for h in hs)) for a, b, hs in hook_defs))
     write_if_changed('Firewall.lean', body, 'src/irclib.py, src/log.py, src/drivers/__init__.py, src/drivers/Socket.py')
